@@ -61,10 +61,10 @@ def _reset(w):
 
 # ---- TL vector loop ---------------------------------------------------------------------------------------------------
 
-@obligation('C19.tl_vector', 'C19', cases=[{'elem': e, 'tail': t} for e in ('int', 'long', 'int256', 'tonNode.blockIdExt', 'liteServer.accountId') for t in (0, 3, 8)],
+@obligation('C19.tl_vector', 'C19', cases=[{'elem': e, 'tail': t} for e in ('int', 'long', 'int256', 'tonNode.blockIdExt', 'liteServer.accountId', 'bytes', 'http.header') for t in (0, 3, 8) if not (e == 'http.header' and t == 8)],
             fuc=[TLD], budget={'seconds': 60, 'paths': 2000},
             descr='TlSchemas.deserialize of a (vector T) field whose 32-bit length field is SYMBOLIC over its whole range, followed by a tail '
-                  'of 0, 3 or 8 symbolic bytes (T: int, long, int256, two bare composites; boxed elements are exercised by the bounded adversarial obligation): the call raises or performs at most '
+                  'of 0, 3 or 8 symbolic bytes (T: int, long, int256, two fixed-width bare composites, bytes, and a bare composite with no fixed-width field; boxed elements are exercised by the bounded adversarial obligation): the call raises or performs at most '
                   'len(input) + 1 loop iterations - the work is bounded by the input, not by the count read from it')
 def tl_vector(w, elem, tail):
     G = importlib.import_module('pytoniq_core.tl.generator')
@@ -166,12 +166,30 @@ def dag(w):
     from pytoniq_core.boc.cell import Cell
     from pytoniq_core.boc.builder import Builder
     rng = w.rng
-    kind = rng.choice(['ladder', 'ladder', 'random', 'chain', 'diamond'])
-    if kind == 'ladder':
+    kind = rng.choice(['ladder', 'ladder', 'ladder_exotic', 'ladder_exotic', 'random', 'chain', 'diamond'])
+    if kind in ('ladder', 'ladder_exotic'):
         d = rng.choice([1, 2, 20, 21, 60, 200, 400])
         c = Builder().store_uint(1, 8).end_cell()
+        if kind == 'ladder_exotic':
+            # the shared cells sit above a pruned branch (non-zero level masks all the way up), the whole below a Merkle proof,
+            # or above a library reference cell
+            leaf_kind = rng.choice(['pruned1', 'pruned3', 'library'])
+            if leaf_kind == 'library':
+                c = Builder(type_=2).store_uint(2, 8).store_bytes(bytes(rng.getrandbits(8) for _ in range(32))).end_cell()
+            else:
+                m = int(leaf_kind[-1])
+                k_ = bin(m).count('1')
+                b_ = Builder(type_=1).store_uint(1, 8).store_uint(m, 8)
+                for _ in range(k_):
+                    b_.store_bytes(bytes(rng.getrandbits(8) for _ in range(32)))
+                for _ in range(k_):
+                    b_.store_uint(rng.randrange(0, 50), 16)
+                c = b_.end_cell()
+            d = min(d, 200)
         for i in range(d):
             c = Builder().store_uint(i & 255, 8).store_ref(c).store_ref(c).end_cell()
+        if kind == 'ladder_exotic' and leaf_kind != 'library' and rng.random() < 0.6:
+            c = Builder(type_=3).store_uint(3, 8).store_bytes(c.get_hash(0)).store_uint(c.get_depth(0), 16).store_ref(c).end_cell()
         root = c
     elif kind == 'chain':
         d = rng.choice([10, 500, 1000])
